@@ -308,8 +308,15 @@ def save_replay(ctx, case_id, files, meta):
 # evidence
 
 
+def evidence_dir():
+    # runs against a mutated copy (VERIF_REPO) must not overwrite the evidence of the real tree
+    if os.path.realpath(REPO) != "/repo":
+        return os.environ.get("VERIF_EVIDENCE_DIR", "/var/tmp/verif_mutant_evidence")
+    return os.path.join(VERIF, "evidence")
+
+
 def write_evidence(ctx, level, coverage, assumptions, violations):
-    os.makedirs(os.path.join(VERIF, "evidence"), exist_ok=True)
+    os.makedirs(evidence_dir(), exist_ok=True)
     ev = {
         "property_id": ctx.pid,
         "tier": ctx.tier,
@@ -320,7 +327,7 @@ def write_evidence(ctx, level, coverage, assumptions, violations):
         "wall_s": round(time.time() - ctx.t0, 2),
         "violations": violations,
     }
-    with open(os.path.join(VERIF, "evidence", ctx.pid + ".json"), "w") as f:
+    with open(os.path.join(evidence_dir(), ctx.pid + ".json"), "w") as f:
         json.dump(ev, f, indent=1, sort_keys=False)
 
 
